@@ -79,6 +79,8 @@ var c05Rangeables = []c05Rangeable{
 	{"rC2", func() interface{} { return strChan("x", "y") }, nil},
 	{"", nil, rj.CallV("ints", rj.N(0), rj.N(3))},
 	{"", nil, rj.CallV("ints", rj.N(2), rj.N(3))},
+	{"", nil, rj.CallV("ints", rj.N(3), rj.N(3))}, // empty and inverted ranges are errors, not endless loops
+	{"", nil, rj.CallV("ints", rj.N(3), rj.N(1))},
 	{"rRi", func() interface{} { return newIdxRanger(true, "u", "w") }, nil},
 	{"rRi0", func() interface{} { return newIdxRanger(true) }, nil},
 	{"rRn", func() interface{} { return newIdxRanger(false, "u", "w") }, nil},
